@@ -1238,6 +1238,14 @@ impl GraphDatabase {
                 }
             };
 
+            if let Some(old_entity) = &node_to_insert.old_entity {
+                if !old_entity.eq(&node._entity) {
+                    //the row to replace belongs to another entity
+                    invalid_nodes.push(node_to_insert.id);
+                    continue;
+                }
+            }
+
             match &node.room_id {
                 Some(r) => {
                     if !room_id.eq(r) {
